@@ -317,6 +317,36 @@ static void s8(int seed, int nthreads, int iters)
   for (auto& th : ts) th.join();
 }
 
+// S9: a tracer constructed on the main thread before the workers start (installing one concurrently with use is the
+// caller's obligation not to do) stays alive while the workers call: every accepted call, on whichever thread, delivers
+// exactly one record to it (C17 under C12's quantifier); a nested tracer made and destroyed on the main thread before the
+// workers start must leave the outer one in effect for them.
+struct CountingTracer : trompeloeil::tracer {
+  std::atomic<long> records{0};
+  void trace(char const*, unsigned long, std::string const&) override { ++records; }
+};
+static void s9(int seed, int nthreads, int iters)
+{
+  CountingTracer outer;
+  { CountingTracer inner; M m0; ALLOW_CALL(m0, g(_)); m0.g(0); if (inner.records != 1) { std::printf("FAIL inner tracer records=%ld\n", static_cast<long>(inner.records)); ++fatal_reports; } }
+  std::atomic<long> accepted{0};
+  std::vector<std::thread> ts;
+  for (int t = 0; t < nthreads; ++t) {
+    ts.emplace_back([&, t] {
+      std::mt19937 r(static_cast<unsigned>(seed * 53 + t));
+      M m;
+      ALLOW_CALL(m, f(_)).RETURN(_1);
+      ALLOW_CALL(m, g(_));
+      for (int i = 0; i < iters; ++i) {
+        perturb(r);
+        try { if (r() % 2) (void)m.f(i); else m.g(i); ++accepted; } catch (Reported const&) { ++fatal_reports; }
+      }
+    });
+  }
+  for (auto& th : ts) th.join();
+  if (outer.records != accepted) { std::printf("FAIL trace records=%ld accepted calls=%ld\n", static_cast<long>(outer.records), static_cast<long>(accepted)); ++fatal_reports; }
+}
+
 // F1: forced schedules at critical-section granularity.  Thread K holds the library's global lock (public API:
 // trompeloeil::get_lock(), recursive), lets thread R start its operation — which has to wait for the lock — performs its
 // own operation under the lock and releases it.  R's operation therefore takes effect after K's: the outcome must be the
@@ -436,6 +466,7 @@ int main(int argc, char** argv)
   else if (sc == "s6") s6(seed, nthreads, iters);
   else if (sc == "s7") s7(seed, nthreads, iters);
   else if (sc == "s8") s8(seed, nthreads, iters);
+  else if (sc == "s9") s9(seed, nthreads, iters);
   else if (sc == "f1") f1(seed, nthreads, iters / 2);
   else if (sc == "l1") l1(seed, nthreads, iters);
   else { std::printf("unknown scenario\n"); return 2; }
